@@ -1,12 +1,14 @@
 package main
 
 import (
+	"encoding/base64"
 	"encoding/json"
 	"fmt"
 	"os"
 	"strings"
 	"time"
 
+	"github.com/opencontainers/go-digest"
 	ocispec "github.com/opencontainers/image-spec/specs-go/v1"
 	oras "oras.land/oras-go/v2"
 	"verifharness/common"
@@ -122,7 +124,7 @@ func genMediaTypes() {
 		}
 	}
 	// mutations of valid names
-	n := run.Scale(20000, 1000000)
+	n := run.Scale(12000, 1000000)
 	all := allBytes()
 	for i := 0; i < n; i++ {
 		s := randValidMediaType(r)
@@ -207,7 +209,7 @@ func genTimes() {
 			timeCase(fmt.Sprintf("2006-01-02T%02d:%02d:%02dZ", h, m, m))
 		}
 	}
-	n := run.Scale(20000, 1000000)
+	n := run.Scale(12000, 1000000)
 	all := allBytes()
 	for i := 0; i < n; i++ {
 		s := randTime(r)
@@ -236,7 +238,8 @@ func randCreated(r *common.Rand) string {
 
 var annKeys = []string{"k", "k1", "k.", "org.example.key", "", "a b", "üñï", "io.verif/x", "org.opencontainers.image.source",
 	"org.opencontainers.image.ref.name"}
-var annVals = []string{"", "v", "hello world", "\"quoted\"", "<a&b>", "line1\nline2", "☃", "{}", "2006-01-02T15:04:05Z", "a=b;c:d,e"}
+var annVals = []string{"", "v", "hello world", "\"quoted\"", "<a&b>", "line1\nline2", "☃", "{}", "2006-01-02T15:04:05Z", "a=b;c:d,e",
+	"tab\there\r\b\f", "back\\slash/\x01\x1f\x7f", "sep\u2028and\u2029", "😀 é \uFFFD", "</script>"}
 
 func randAnn(r *common.Rand, fn string, allowCreated bool) map[string]string {
 	switch r.Intn(4) {
@@ -298,9 +301,15 @@ func randBlob(r *common.Rand, sp *spec, mt string, backed bool) ocispec.Descript
 	}
 	if r.Chance(1, 8) {
 		d.URLs = []string{"https://example.com/" + longName(r, 4)}
+		if r.Bool() {
+			d.URLs = append(d.URLs, "", "https://example.com/?a=1&b=<2>")
+		}
 	}
 	if r.Chance(1, 10) {
 		d.Platform = &ocispec.Platform{Architecture: "amd64", OS: "linux"}
+		if r.Bool() {
+			d.Platform = &ocispec.Platform{Architecture: "arm64", OS: "windows", OSVersion: "10.0.17763", OSFeatures: []string{"win32k", "a\"b"}, Variant: "v8"}
+		}
 	}
 	if r.Chance(1, 10) {
 		d.ArtifactType = "application/vnd.example.at"
@@ -434,7 +443,23 @@ func randSpec(r *common.Rand) *spec {
 	// strings that are not valid UTF-8 (Go strings are byte strings)
 	if r.Chance(1, 10) {
 		bad := func() string { return pick(r, "\xff", "\xfe", "\xc0\x80", "\xed\xa0\x80", "\xe2\x98", "\x80") }
-		switch r.Intn(3) {
+		switch r.Intn(4) {
+		case 3: // inside a caller-supplied descriptor
+			if len(sp.Layers) > 0 {
+				l := &sp.Layers[r.Intn(len(sp.Layers))]
+				switch r.Intn(3) {
+				case 0:
+					l.MediaType = "application/x" + bad()
+				case 1:
+					l.Annotations = map[string]string{"lk": "lv" + bad()}
+				default:
+					l.URLs = []string{"https://example.com/" + bad()}
+				}
+			} else if sp.Config != nil {
+				sp.Config.ArtifactType = "cfg/at" + bad()
+			} else {
+				sp.AT = "a/b" + bad()
+			}
 		case 0:
 			base := "a/b"
 			if sp.AT != "" && r.Bool() {
@@ -517,6 +542,7 @@ func enumFileTitles() {
 // ---------------------------------------------------------------- json string coercion
 
 func utf8Case(s string) {
+	jsonStringCase(s)
 	id := run.NewID()
 	js, err := json.Marshal(s)
 	var back string
@@ -533,6 +559,134 @@ func utf8Case(s string) {
 		run.Nontrivial("U:" + s)
 	} else {
 		run.Count("utf8_unchanged")
+	}
+}
+
+// jsonStringCase: json.Marshal of a Go string (escaping, coercion) against json_string of the model;
+// base64Case: base64.StdEncoding (the []byte Data field) against base64 of the model.
+func jsonStringCase(s string) {
+	id := run.NewID()
+	js, err := json.Marshal(s)
+	obs := common.Hex(string(js))
+	if err != nil {
+		obs = "ERR"
+	}
+	run.Case(id, "J "+common.Hex(s), obs)
+	run.Count("json_string")
+	if len(js) != len(s)+2 {
+		run.Nontrivial("J:" + s)
+	}
+	id = run.NewID()
+	run.Case(id, "B "+common.Hex(s), common.Hex(base64.StdEncoding.EncodeToString([]byte(s))))
+	run.Count("base64")
+}
+
+// formatCase: time.Date(...).Format(time.RFC3339) of a civil UTC time against format_rfc3339_utc;
+// a civil time the runtime would normalise (31 February, hour 24) is INVALID for the model.
+func formatCase(y, mo, d, h, mi, s int) {
+	id := run.NewID()
+	t := time.Date(y, time.Month(mo), d, h, mi, s, 0, time.UTC)
+	obs := "INVALID"
+	if t.Year() == y && int(t.Month()) == mo && t.Day() == d && t.Hour() == h && t.Minute() == mi && t.Second() == s && y >= 0 && y <= 9999 {
+		v := t.Format(time.RFC3339)
+		obs = common.Hex(v)
+		run.Count("format_valid")
+		// what Pack would write for this instant passes Pack's own validation
+		if ok, err := createdAccepted(v); !ok {
+			run.OracleFail(id, "clock-value-rejected", fmt.Sprintf("time %v formats to %q, which the created validation refuses: %v", t, v, err),
+				map[string]string{"op": "F", "civil": fmt.Sprintf("%d %d %d %d %d %d", y, mo, d, h, mi, s)})
+		}
+	} else {
+		run.Count("format_invalid")
+	}
+	run.Case(id, fmt.Sprintf("F %d %d %d %d %d %d", y, mo, d, h, mi, s), obs)
+}
+
+func genFormats() {
+	r := run.Rand.Fork()
+	for _, y := range []int{0, 1, 4, 99, 100, 400, 999, 1000, 1900, 1970, 2000, 2023, 2024, 2100, 9999} {
+		for mo := 1; mo <= 12; mo++ {
+			for _, d := range []int{1, 9, 10, 28, 29, 30, 31} {
+				formatCase(y, mo, d, 0, 0, 0)
+			}
+		}
+	}
+	for h := 0; h <= 24; h++ {
+		formatCase(2021, 7, 1, h, h*2, h*2+11)
+	}
+	n := run.Scale(3000, 100000)
+	for i := 0; i < n; i++ {
+		formatCase(pick(r, r.Intn(10000), 1969+r.Intn(100)), 1+r.Intn(12), 1+r.Intn(31), r.Intn(24), r.Intn(60), r.Intn(60))
+	}
+}
+
+// annObjectCase: json.Marshal of a map[string]string against json_ann of the model, and the pairs a
+// token-wise decode of those bytes yields (document order) against read_obj of the model.
+func annObjectCase(m map[string]string) {
+	id := run.NewID()
+	js, err := json.Marshal(m)
+	obs := "ERR"
+	if err == nil {
+		dec := json.NewDecoder(strings.NewReader(string(js)))
+		var ps []string
+		tok, _ := dec.Token()
+		if d, ok := tok.(json.Delim); ok && d == '{' {
+			for dec.More() {
+				k, _ := dec.Token()
+				v, _ := dec.Token()
+				ps = append(ps, common.Hex(k.(string))+"="+common.Hex(v.(string)))
+			}
+		}
+		back := "-"
+		if len(ps) > 0 {
+			back = strings.Join(ps, ";")
+		}
+		obs = common.Hex(string(js)) + " " + back
+	}
+	run.Case(id, "A "+showAnn(m), obs)
+	run.Count("ann_object")
+}
+
+func genAnnObjects() {
+	r := run.Rand.Fork()
+	annObjectCase(map[string]string{})
+	annObjectCase(map[string]string{"": ""})
+	n := run.Scale(1500, 50000)
+	for i := 0; i < n; i++ {
+		m := map[string]string{}
+		k := r.Intn(5)
+		for j := 0; j < k; j++ {
+			key := pick(r, common.Pick(r, annKeys), common.Pick(r, annVals), "k\xff", "k\xfe", "a\"b", "z"+string([]byte{byte(r.Intn(256))}))
+			m[key] = pick(r, common.Pick(r, annVals), "v\xff\xfe", string([]byte{byte(r.Intn(256)), byte(r.Intn(256))}))
+		}
+		annObjectCase(m)
+	}
+}
+
+// digestCase: digest.FromBytes(..).String() against the modelled SHA-256.
+func digestCase(s string) {
+	id := run.NewID()
+	run.Case(id, "S "+common.Hex(s), common.Hex(digest.FromBytes([]byte(s)).String()))
+	run.Count("sha256")
+}
+
+func genDigests() {
+	r := run.Rand.Fork()
+	for _, n := range []int{0, 1, 2, 3, 54, 55, 56, 57, 63, 64, 65, 118, 119, 120, 127, 128, 129, 200, 1000} {
+		digestCase(strings.Repeat("a", n))
+		b := make([]byte, n)
+		for j := range b {
+			b[j] = byte(r.Intn(256))
+		}
+		digestCase(string(b))
+	}
+	n := run.Scale(150, 5000)
+	for i := 0; i < n; i++ {
+		b := make([]byte, r.Intn(300))
+		for j := range b {
+			b[j] = byte(r.Intn(256))
+		}
+		digestCase(string(b))
 	}
 }
 
@@ -564,6 +718,10 @@ func genUTF8() {
 		}
 		utf8Case(string(b))
 	}
+	for c := 0; c < 256; c++ {
+		utf8Case("a" + string([]byte{byte(c)}) + "z")
+		utf8Case(string([]byte{byte(c)}))
+	}
 	for _, s := range []string{"é☃😀", "\xf0\x9f\x98", "\xf4\x90\x80\x80", "\xe0\x9f\xbf", "\xed\x9f\xbf", "\xed\xa0\x80", "\xef\xbf\xbd", "\u2028<>&"} {
 		utf8Case(s)
 	}
@@ -573,8 +731,18 @@ func genPacks() {
 	r := run.Rand.Fork()
 	n := run.Scale(2500, 100000)
 	for i := 0; i < n; i++ {
-		packCase(randSpec(r))
+		sp := randSpec(r)
+		// histories: a few different calls one after the other on the same target (not the file
+		// store, whose names would have to be tracked across calls by the oracle)
+		if chain == nil && sp.Target != "file" && r.Chance(1, 5) {
+			startChain(sp.Target)
+		}
+		packCase(sp)
+		if chain != nil && (len(chain.prev) >= 4 || r.Chance(1, 3)) {
+			endChain()
+		}
 	}
+	endChain()
 }
 
 // enumFaults (both tiers): every target kind x every fault position x every fault error class on the
@@ -589,9 +757,12 @@ func enumFaults() {
 				for ci := 0; ci < 2; ci++ {
 					for li := 0; li < 2; li++ {
 						for fa := -1; fa <= 4; fa++ {
-							for _, fe := range []string{"", "notfound", "dupname", "closed", "unsupported"} {
+							for fi, fe := range []string{"", "notfound", "dupname", "closed", "unsupported"} {
 								if fa < 0 && fe != "" {
 									continue
+								}
+								if !run.Thorough() && fi >= 3 && (ci != 0 || li != 0) {
+									continue // quick: the two rarer error classes only on the plain option set
 								}
 								sp := &spec{Fn: fn, Target: tg, Exists: ex, FailAt: fa, FaultErr: fe, AT: "application/vnd.example.thing", Backed: backing,
 									Ann: map[string]string{createdKey(fn): "2021-07-01T12:00:00Z"}}
@@ -650,8 +821,15 @@ func enumPacks() {
 					for li := 0; li < 3; li++ {
 						for si := 0; si < 2; si++ {
 							for _, at := range []string{"", "application/vnd.example.thing", "not a type", ocispec.MediaTypeImageManifest} {
-								for _, created := range enumCreated {
+								for ci, created := range enumCreated {
+									// the leniency variants of created only on the plain option set
+									if ci >= 4 && (li != 0 || si != 0) {
+										continue
+									}
 									for pi := 0; pi < 3; pi++ {
+										if ci >= 4 && pi != 0 {
+											continue
+										}
 										for _, fa := range fails {
 											sp := &spec{Fn: fn, Target: tg, Exists: ex, FailAt: fa, AT: at, Config: cfg, Backed: backing}
 											switch li {
@@ -717,11 +895,44 @@ func main() {
 					sp.Backed = map[string]string{}
 				}
 				sp.decodeHex()
+				if len(sp.Prev) > 0 { // a call of a history: replay its predecessors on one target first
+					startChain(sp.Target)
+					for _, pj := range sp.Prev {
+						var ps spec
+						if err := json.Unmarshal([]byte(pj), &ps); err != nil {
+							panic(err)
+						}
+						if ps.Backed == nil {
+							ps.Backed = map[string]string{}
+						}
+						ps.decodeHex()
+						packCase(&ps)
+					}
+					sp.Prev = nil
+					packCase(&sp)
+					endChain()
+					continue
+				}
 				packCase(&sp)
-			case "U":
+			case "S":
+				digestCase(common.UnHex(c["hex"]))
+			case "A":
+				m := map[string]string{}
+				if c["ann"] != "-" {
+					for _, kv := range strings.Split(c["ann"], ";") {
+						p := strings.SplitN(kv, "=", 2)
+						m[common.UnHex(p[0])] = common.UnHex(p[1])
+					}
+				}
+				annObjectCase(m)
+			case "U", "J", "B":
 				utf8Case(common.UnHex(c["hex"]))
 			case "L":
 				parseCase(common.UnHex(c["hex"]))
+			case "F":
+				var y, mo, d, h, mi, s int
+				fmt.Sscanf(c["civil"], "%d %d %d %d %d %d", &y, &mo, &d, &h, &mi, &s)
+				formatCase(y, mo, d, h, mi, s)
 			}
 		}
 		run.Finish()
@@ -732,6 +943,9 @@ func main() {
 	enumFileTitles()
 	genPacks()
 	genTimes()
+	genFormats()
+	genDigests()
+	genAnnObjects()
 	genUTF8()
 	genMediaTypes()
 	floors()
@@ -743,9 +957,9 @@ func floors() {
 	want := map[string]int{"result_ok": 500, "result_storage-error": 100, "result_invalid-datetime": 50, "result_invalid-media-type": 50,
 		"result_unsupported": 20, "result_missing-artifact-type": 20, "target_memory": 50, "target_oci": 50, "target_file": 50,
 		"target_registry": 50, "target_oci+exists": 50, "target_file+exists": 50, "target_registry+exists": 50, "copy_checked": 300,
-		"determinism_checked": 300, "registry_validating": 50, "file_named_blob": 50, "file_titled_config": 30, "file_titled_manifest": 10, "file_duplicate_name": 20, "enumerated_file_titles": 200, "prefilled": 300, "non_utf8_input": 50, "sha512_descriptor": 50, "config_empty_media_type": 10,
+		"determinism_checked": 300, "history_second_call": 300, "history_chained_call": 150, "idempotence_checked": 200, "registry_validating": 50, "file_named_blob": 50, "file_titled_config": 30, "file_titled_manifest": 10, "file_duplicate_name": 20, "enumerated_file_titles": 200, "prefilled": 300, "non_utf8_input": 50, "sha512_descriptor": 50, "config_empty_media_type": 10,
 		"enumerated": 1000, "enumerated_faults": 1000, "time_accepted": 1000, "parse_accepted": 1000, "parse_rejected": 1000, "time_rejected": 1000, "mediatype_valid": 1000,
-		"mediatype_invalid": 1000, "utf8_coerced": 500, "utf8_unchanged": 100}
+		"mediatype_invalid": 1000, "utf8_coerced": 500, "json_string": 1000, "format_valid": 1000, "sha256": 150, "ann_object": 1000, "format_invalid": 20, "base64": 1000, "utf8_unchanged": 100}
 	var low []string
 	for k, n := range want {
 		if run.Dist[k] < n {
